@@ -134,6 +134,32 @@ Theorem apply_build : forall A B d,
 Proof. exact apply_build_then_build. Qed.
 Print Assumptions apply_build.
 
+(* for ALL A under H with uint64 values and ALL B with uint64 local memories:
+   build, apply, then apply with APPLY_REVERSE gives A back exactly *)
+Theorem reverse_restores : forall A B d,
+  Hkeys A -> Hnames A -> Hdepths A -> Hu64 A -> (0 <= t_nbl A)%Z ->
+  (forall b, In b (oattrs (t_root B)) -> a_lmem b < U64) ->
+  diff_build 0 A B = BRet 0 d ->
+  exists A', diff_apply 0 d A = ARet 0 A' /\ diff_build 0 A' B = BRet 0 [] /\
+             diff_apply HWLOC_TOPOLOGY_DIFF_APPLY_REVERSE d A' = ARet 0 A.
+Proof. exact build_apply_reverse. Qed.
+Print Assumptions reverse_restores.
+
+(* the list built by diff_build addresses every attribute at most once *)
+Theorem build_diff_slots_distinct : forall A B d,
+  Hkeys A -> Hnames A -> Hdepths A -> (0 <= t_nbl A)%Z ->
+  diff_build 0 A B = BRet 0 d -> slots_distinct (t_nbl A) d = true.
+Proof. exact build_slots_distinct. Qed.
+Print Assumptions build_diff_slots_distinct.
+
+(* for ALL topologies, lists and flags: whatever diff_apply returns (success or
+   rollback), H still holds and total_memory is still the uint64 sum of the
+   local memories of the NUMA nodes at or below each object *)
+Theorem apply_preserves_total_memory_invariant : forall flags d T rc T',
+  Inv T -> forallb entry_u64 d = true -> diff_apply flags d T = ARet rc T' -> Inv T'.
+Proof. exact apply_preserves_invariants. Qed.
+Print Assumptions apply_preserves_total_memory_invariant.
+
 (* for ALL topologies under H and ALL lists whose entries address pairwise
    different attributes: a list that applies is undone by the same list applied
    with HWLOC_TOPOLOGY_DIFF_APPLY_REVERSE, and conversely (the hypothesis
@@ -181,13 +207,16 @@ Qed.
 
 (* a pair that differs in a name, an info value, a local memory and a topology
    info: build returns 0 with 4 entries, apply gives B exactly (total_memory
-   included), reverse apply gives A back *)
+   included), reverse apply gives A back; both satisfy the total_memory invariant *)
 Definition ex_B := topo2 "q0" "p1" 1000 5 [("X", "z"); ("Y", "b")] [] [("T", "2")].
 Example build_apply_reverse_example :
   exists d, diff_build 0 ex_T ex_B = BRet 0 d /\ List.length d = 4%nat /\
             diff_apply 0 d ex_T = ARet 0 ex_B /\ diff_apply HWLOC_TOPOLOGY_DIFF_APPLY_REVERSE d ex_B = ARet 0 ex_T /\
-            ~ expressible ex_T (topo1 None []).
+            ~ expressible ex_T (topo1 None []) /\ Inv ex_T /\ Inv ex_B.
 Proof.
   eexists. split; [vm_compute; reflexivity|]. split; [reflexivity|]. split; [vm_compute; reflexivity|].
-  split; [vm_compute; reflexivity|]. intros [E _]. discriminate E.
+  split; [vm_compute; reflexivity|]. split; [intros [E _]; discriminate E|].
+  split; (split; [apply keys_unique_Hkeys; vm_compute; reflexivity|];
+          split; [apply info_names_nodup_Hnames; vm_compute; reflexivity|];
+          split; [apply vals_u64_Hu64; vm_compute; reflexivity|apply tmem_consistent_Htmem; vm_compute; reflexivity]).
 Qed.
